@@ -81,6 +81,7 @@ class PinWorld:
         self.switch_busy_until = {}
         self.ambiguous_reentries = 0
         self.reentry_at_timeout = 0
+        self.exact_late_arrivals = 0
 
     # ------------------------------------------------------------------------------------------
     def attach(self):
@@ -205,7 +206,14 @@ class PinWorld:
         if info.confirm_switch is not None:
             self._later(0.05, self._pulse_switch, info.confirm_switch, 0.02)
         if outcome == "late":
-            tau = info.eject_timeout + self.rt.pick("late_extra", [0.2, 0.05, 1.0, 2.5])
+            extra = self.rt.pick("late_extra", [0.2, 0.05, 1.0, 2.5, "exact"])
+            if extra == "exact":
+                # counted in the target in the very instant the source gives the ball up for lost
+                tdev = self.devs.get(info.target.name)
+                extra = info.missing_timeout - (tdev.entrance_count_delay if tdev else 0.0)
+                self.ctx.probe("late_arrival_at_missing_deadline")
+                self.exact_late_arrivals += 1
+            tau = info.eject_timeout + extra
         else:
             hi = max(0.15, min(info.eject_timeout * 0.8, 1.5))
             tau = self.rt.pick("transit", [0.3, 0.1, 0.5, 0.9, 1.4])
